@@ -18,6 +18,91 @@ CHECKS = {
         'Trusts IEEE-754 exactness below 2^53 and the textbook form of the '
         'identities (with |q|^2 factors for non-unit quaternions).',
         'DESIGN.md §2 C09'),
+    'C10': (
+        'reference-model monitor: closed-form primitive geometry (numpy) vs '
+        'every row of contact.get',
+        'Each contact row of generated plane/sphere/capsule scenes is compared '
+        'with closed-form distances, normal direction, owning links and mean '
+        'elasticity computed from the scene spec alone; held on the scenes '
+        'and poses generated.',
+        'Trusts the closed forms (point-segment, segment-segment); capsule '
+        'normals are checked to 6e-3 rad because mjx regularises them.',
+        'DESIGN.md §2 C10'),
+    'C11': (
+        'reference-model monitor (MuJoCo qfrc_actuator) + monotonicity sweeps '
+        'on actuator.to_tau',
+        'to_tau is compared with the reference engine on every generated '
+        '(model, state, control), with exact-zero and monotone/constant/'
+        'saturation sweeps through the range bounds.',
+        'Trusts MuJoCo 3.13 mj_forward for the same compiled model.',
+        'DESIGN.md §2 C11'),
+    'C13': (
+        'reference-model monitor: MuJoCo on the unfused document vs MuJoCo on '
+        'mjcf.fuse_bodies(document), matched by element name',
+        'Geoms, fromto end points, sites, jointed bodies, joint-space inertia '
+        'and bias of generated documents with nested jointless bodies are '
+        'compared before/after fusing at random joint states.',
+        'Trusts MuJoCo welding of static bodies; %f rewriting bounds the '
+        'agreement at 5e-5.',
+        'DESIGN.md §2 C13'),
+    'C14': (
+        'input fault injection (one unsupported feature at a random element) '
+        '+ structural reference from the generator spec and MuJoCo poses',
+        'Each of 24 unsupported-feature variants is injected at random '
+        'eligible elements of generated models and must be refused by loads '
+        'or by all three pipeline inits; accepted models are compared field '
+        'by field with counts/addresses recomputed from the spec.',
+        'The feature list is the one in the property statement; spec-side '
+        'address arithmetic follows MuJoCo document order.',
+        'DESIGN.md §2 C14'),
+    'C15': (
+        'history checker: recorded wrapper outputs of a scripted environment '
+        'vs an independent episode automaton; exhaustive over termination '
+        'schedules',
+        'All 256 period-8 termination schedules x episode_length 1-6 x '
+        'action_repeat 1-3 are run through the real training.wrap + '
+        'EvalWrapper as one vmapped batch and every wrapped step is compared '
+        'with the automaton; Evaluator, generate_unroll and envs.create are '
+        'sampled.',
+        'The scripted environment and the automaton (vf/scripted_env.py) are '
+        'trusted; mid-repeat terminations leave done unspecified.',
+        'DESIGN.md §2 C15'),
+    'C17': (
+        'history checker against a list-based reference queue; exhaustive '
+        'depth-first enumeration of operation sequences with unique record ids',
+        'Plain queues: every operation sequence up to depth 5 (quick) / 7 '
+        '(thorough) for capacity 1-5, batch 1-4, cyclic or not, is executed on '
+        'the real object and compared (returned ids, size, refusals, drain); '
+        'uniform, pytree and 2-4-shard pmap/pjit queues by random histories.',
+        'Reference queue semantics as stated in the property; the real '
+        "object's host-side counter is saved/restored on backtracking.",
+        'DESIGN.md §2 C17'),
+    'C18': (
+        'reference-model monitor: numpy population statistics of the '
+        'concatenated data vs running_statistics over generated update '
+        'histories',
+        'Count, mean, std, partition invariance, weight-equals-repetition, '
+        'clipping, normalize/denormalize round trip and integer pass-through '
+        'are checked on generated nested structures and partitions.',
+        'Round-off model: mean 1e-9 relative, variance 1e-12*(mean^2+var).',
+        'DESIGN.md §2 C18'),
+    'C19': (
+        'reference-model monitor: O(T^2) definition of GAE in numpy + two '
+        'closed forms; exhaustive mask patterns for T<=4',
+        'compute_gae is compared with the defining double sum on all 3^T '
+        'mask patterns for T<=4 and random cases up to T=12, plus lambda=1 '
+        'Monte-Carlo and lambda=0 TD forms and an exact-zero gradient check.',
+        'The defining sum as written in DESIGN.md is the reference.',
+        'DESIGN.md §2 C19'),
+    'C20': (
+        'reference-model monitor: numpy density / log-Jacobian closed forms, '
+        'Gauss-Legendre quadrature, reparameterisation and PPO inference '
+        'recomputed independently',
+        'NormalTanhDistribution and make_inference_fn outputs are compared '
+        'with independent closed forms over generated parameters incl. the '
+        'range end points; the squashed density is integrated numerically.',
+        'jax.random.normal(key, shape) is the draw used for sampling.',
+        'DESIGN.md §2 C20'),
 }
 
 BUILT = sorted(CHECKS)
